@@ -203,4 +203,5 @@ def run(ctx):
     profile.check(ctx, rep, 'R11.P', ['opaque_ke::keypair::PublicKey::<KG>::deserialize', '<opaque_ke::keypair::PrivateKey<KG> as opaque_ke::keypair::SecretKey<KG>>::deserialize'])
     from rules import witness
     witness.check(ctx, rep, 'R11.W', ['WNewtypePk', 'WNewtypeSk'])
+    an.vgroup_forwarding(ctx, rep, 'R11.D', only=('deserialize_elem', 'deserialize_scalar', 'is_zero_scalar', 'identity_elem'))
     return rep
